@@ -433,6 +433,19 @@ void eop(string *a) {
     r = map(allocate(n), (: run_ret_cb($1, $2) :), sub(implode(a[2..], " ")));
     rec("EFRES map " + (sizeof(r) == n && sizeof(r - ({ 1 })) == 0 ? "ok" : save_variable(r)));
     break;
+  case "exec":    // exec [dest]: move this connection to a fresh user object (exec efun); "exec dest" destructs the old body
+    {
+      object nb; string oldname;
+      nb = new(explode(file_name(this_object()), "#")[0]); oldname = me();
+      rec("EXEC " + oldname + " " + file_name(nb));
+      if (exec(nb, this_object())) {
+        // with "dest" the old body goes away: for the logs it is destructed first, then its tag is given to the new body
+        if (sizeof(a) > 1 && a[1] == "dest") rec("DEST " + oldname);
+        nb->after_exec(tag, oldname);
+        if (sizeof(a) > 1 && a[1] == "dest") destruct(this_object());
+      }
+    }
+    break;
   case "sort":
     cb_script = sub(implode(a[1..], " "));
     r = sort_array(({ 3, 1, 2, 5, 4 }), "cmp_cb", this_object());
@@ -639,6 +652,9 @@ void do_op(string op) {
     spread_call(({ sub(implode(a[1..], " ")), 1, 2 }));
     break;
   case "filter": case "map": case "sort":
+    eop(a);
+    break;
+  case "exec":
     eop(a);
     break;
   case "spread2": // spread2 <script>: f(args..., g(script)) - the script runs between the expansion and the call
